@@ -328,12 +328,12 @@ func CheckC09(r *Run) int {
 	shapes := c09Shapes()
 	ngen := 20
 	if r.Tier != "quick" {
-		ngen = 600
+		ngen = 4000
 	}
 	for i := 0; i < ngen; i++ {
 		shapes = append(shapes, genModuleShape(r.Seed*1000+int64(i)))
 	}
 	return checkShapes(r, shapes, eqOpts{Target: "bash", CheckHazards: true}, 3000,
-		"import graphs: single, two files with top-level code, diamonds, chain, repeated alias, std + local, equal names, imported globals, files in several directories, plus 20 (quick) / 600 (thorough) generated acyclic graphs of 2..4 files with globals, private helpers, cross-file calls and top-level code; every imported file once with a hash prefix starting with a letter and once with a digit (sha256 stubbed per class; counterexamples are replayed with a comment nonce that gives the real hash the same class); illegal uses (private, undefined, unknown alias, transitive) must be rejected",
+		"import graphs: single, two files with top-level code, diamonds, chain, repeated alias, std + local, equal names, imported globals, files in several directories, plus 20 (quick) / 4000 (thorough) generated acyclic graphs of 2..4 files with globals, private helpers, cross-file calls and top-level code; every imported file once with a hash prefix starting with a letter and once with a digit (sha256 stubbed per class; counterexamples are replayed with a comment nonce that gives the real hash the same class); illegal uses (private, undefined, unknown alias, transitive) must be rejected",
 		"the reference composes modules: a file's top-level code runs once when first imported, its functions see its own globals; integer arguments in the main file are symbolic")
 }
